@@ -316,6 +316,36 @@ def c14_run(rep, rng, tier, term):
         nest = [g[0], [g[1], [x for x in g[2:]]]] if len(g) > 2 else [g]
         check_equal('groups', flat, [text, tuple(flat), [flat], nest, [[x] for x in flat]], {'codes': g})
         reqs.append([7, form_wire(['list', [['int', x] for x in g]])]); meta.append((g, call(lambda: settings_of(flat))))
+    # "flattened in order": an integer run contributes the same settings wherever it stands relative to non-integer
+    # neighbours (every code 0..255, plus malformed / dangling colour groups), as int, decimal string and nested
+    neigh = [('member', AnsiFormat.ITALIC, ['member', 'ITALIC']), ('name', 'underline', ['str', 'underline']),
+             ('verbatim', '[1;31', ['str', '[1;31']), ('setting', AnsiSetting('34'), ['setting', '34'])]
+    runs = [[c] for c in range(1, 256)] + [[38], [38, 7], [38, 5], [48, 2, 1], [99, 38, 5, 1], [38, 38, 5, 1], [73, 1], [1, 73], [58, 5, 1, 300]]
+    for run in runs:
+        alone = call(lambda: settings_of(list(run)))
+        if alone[0] != 'ok':
+            continue
+        (kind, nb, nbw) = neigh[(run[0] + len(run)) % len(neigh)] if tier == 'quick' and len(run) == 1 else neigh[rng.randrange(len(neigh))]
+        nb_alone = call(lambda: settings_of(nb))
+        want = alone[1][0] + nb_alone[1][0]
+        want2 = nb_alone[1][0] + alone[1][0]
+        text = ';'.join(map(str, run))
+        variants = [('run first', list(run) + [nb], want), ('run last', [nb] + list(run), want2), ('run nested first', [list(run), nb], want),
+                    ('run as items of a tuple', tuple(run) + (nb,), want), ('between', [nb] + list(run) + [nb], nb_alone[1][0] + alone[1][0] + nb_alone[1][0])]
+        if isinstance(nb, str) and not nb.startswith('['):
+            variants.append(('decimal string with directive', text + ';' + nb, want))
+            variants.append(('directive then decimal string', nb + ';' + text, want2))
+        for (where, f, w) in variants:
+            got = call(lambda: settings_of(f))
+            payload = {'run': run, 'neighbour': kind, 'position': where, 'form': repr(f)}
+            rep.count(payload, True)
+            if got[0] != 'ok' or got[1][0] != w:
+                viol.append({'oracle': 'C14.order', 'case': payload,
+                             'msg': 'integer run %s %s (%r) reports %s; on its own it gives %s and the neighbour gives %s, so flattened in order: %s'
+                                    % (run, where, f, got, alone[1][0], nb_alone[1][0], w)})
+                break
+        reqs.append([7, form_wire(['list', [['int', x] for x in run] + [nbw]])]); meta.append((['list', [['int', x] for x in run] + [nbw]], None))
+    rep.bump('integer runs by position', len(runs))
     # rgb / color256 helpers and their string forms
     comps = [('', 'rgb', AnsiFormat.rgb, AnsiFormat.color256), ('fg_', 'fg_rgb', AnsiFormat.fg_rgb, AnsiFormat.fg_color256),
              ('bg_', 'bg_rgb', AnsiFormat.bg_rgb, AnsiFormat.bg_color256), ('ul_', 'ul_rgb', AnsiFormat.ul_rgb, AnsiFormat.ul_color256),
@@ -440,6 +470,15 @@ def c15_run(rep, rng, tier, term):
     more = ['38;5;214', '38;2;1;2;3', '48;5;0', '58;2;255;255;255', '38;5;256', '38;2;1;2', '38;5', '38', '0', '00', '01', '007', '1;31', '99',
             '22', '107', '108', '56', '57', '60', '4;58;5;1', '38;5;1;1', ' 1', '1 ', '+1', '-1', '1_0', '１', '٣', '1;', ';1', ';', '[1', 'a', '~', '@', '?', '38;3;1',
             '58;5;7', '58;2;0;0;0', '48;2;0;0;256', '255', '256', '1.0', '1e1', '0x1', '\x7f', 'é1']
+    # structured: every extended-colour group shape with boundary values at every position (in range, just out of
+    # range, far out of range, zero-padded), complete, truncated and over-long; every single code up to 300
+    bv = ['0', '7', '255', '256', '999', '0256']
+    for intro in ('38', '48', '58'):
+        for mode, maxargs in (('2', 4), ('5', 2), ('3', 1), ('256', 1)):
+            for k in range(maxargs + 1):
+                for tup in itertools.product(bv, repeat=k):
+                    cases.append(';'.join((intro, mode) + tup))
+    cases += [str(c) for c in range(0, 301)]
     cases += more + [''.join(rng.choice('0123456789;;; +m') for _ in range(rng.randint(1, 12))) for _ in range(2000 if tier == 'quick' else 50000)]
     answers = model.ask([[6, t] for t in cases], chunk=6000)
     for t, a in zip(cases, answers):
